@@ -19,3 +19,7 @@ func init() {
 	props["C12"] = &propInfo{engine: "A", level: "model_checking", assume: schedAssume, minOutcomes: 1}
 	props["C11"] = &propInfo{engine: "A", level: "model_checking", assume: schedAssume, minOutcomes: 1}
 }
+
+func init() {
+	props["C13"] = &propInfo{engine: "A", level: "model_checking", assume: schedAssume, minOutcomes: 1}
+}
